@@ -88,6 +88,23 @@ class Adapter:
         self.all_manifest_fetches = 0
         self.since_refresh: set[str] = set()
 
+    def is_whole_stored_segment(self, path: str, resp) -> bool:
+        """206 answers of the on-demand profile: true when the range is exactly one stored media segment"""
+        from dlv.oracles import isobmff as ib
+        import re
+        m = re.match(r'bytes (\d+)-(\d+)/', resp.headers.get('Content-Range', ''))
+        if not m:
+            return False
+        a, b = int(m.group(1)), int(m.group(2)) + 1
+        for (directory, name), buf in self.env.stored.items():
+            if re.search(r'/' + re.escape(name) + r'\.', path):
+                if not hasattr(self, '_ranges'):
+                    self._ranges = {}
+                if name not in self._ranges:
+                    self._ranges[name] = {(sg.start, sg.end) for sg in ib.index_file(buf).segments}
+                return (a, b) in self._ranges[name]
+        return False
+
     def default_duration(self, url: str) -> int:
         """trex default_sample_duration of the stored file the URL names (own walker)"""
         from dlv.oracles import isobmff as ib
@@ -184,6 +201,8 @@ class Adapter:
             import re as _re
             m_ = _re.search(r'/([a-z]+_[avt]\d+(?:_enc)?)/', path)
             rep_key = m_.group(1) if m_ else path
+            if resp.status_code == 206 and not self.is_whole_stored_segment(path, resp):
+                return          # index / init range of an on-demand file: not a media segment fetch
             self.media_seen[rep_key] = self.media_seen.get(rep_key, 0) + 1
             self.current_is_first = self.media_seen[rep_key] == 1
             first_since_refresh = rep_key not in self.since_refresh
@@ -192,7 +211,10 @@ class Adapter:
                                            and not self.current_is_first):
                 return
         if f in SEGMENT_FAULTS and is_media:
-            if resp.status_code != 200:
+            if resp.status_code not in (200, 206):
+                return
+            if resp.status_code == 206 and not self.is_whole_stored_segment(path, resp):
+                # an index or probe range of an on-demand file, not the fetch of one media segment
                 return
             try:
                 frag = ib.read_fragment(resp._body)
